@@ -76,6 +76,10 @@ package rapid
 //@   loop range agentPaths: invariant [one-exec-per-path] delta(ExecAny) == rangeindex + 1 && delta(ExecExtension) == rangeindex + 1 && delta(ExecRuntime) == 0 && delta(ExecFailed) == 0
 //@   loop range agentPaths: invariant [one-exit-channel-per-path] delta(ExitChannelCreated) == rangeindex + 1
 //@   loop range agentPaths: invariant [exec-in-the-past] last(ExecAny) <= now()
+// C07 / C09: the exit event of a process may be handled (by the events watcher, on its own goroutine) before Exec has returned
+// to its caller; the watcher looks the process's exit channel up and log.Panicf's when there is none. So the channel exists
+// before the process is started.
+//@   loop range agentPaths: invariant [C07: the-exit-channel-exists-before-the-process-is-started] rangeindex >= 0 ==> last(ExitChannelCreated) < last(ExecAny)
 //@   loop range agentPaths: invariant [not-yet] delta(AwaitRegistered) == 0 && delta(AwaitRegisteredOK) == 0 && delta(CountOverLimit) == 0 && delta(LaunchErrorRecorded) == 0
 
 // C15: the lifecycle-event helpers send exactly one event for a valid phase
@@ -141,6 +145,7 @@ package rapid
 // C03 + C15: the initialisation skeleton
 //@ func doRuntimeDomainInit
 //@   requires held(execCtx)
+//@   ensures [C07: the-exit-channel-exists-before-the-runtime-is-started] delta(ExecRuntime) >= 1 ==> delta(ExitChannelCreated) >= 1 && last(ExitChannelCreated) < last(ExecRuntime)
 //@   requires execCtx != nil && validPhase(phase) && sbInfoFromInit.EnvironmentVariables != nil
 //@   ensures [init-start-then-report] delta(EvInitStart) == 1 && delta(EvInitReport) == 1 && first(EvInitStart) < first(EvInitReport)
 //@   ensures [at-most-one-runtime-done-inside] delta(EvInitRuntimeDone) <= 1 && (delta(EvInitRuntimeDone) == 1 ==> first(EvInitStart) < first(EvInitRuntimeDone) && first(EvInitRuntimeDone) < first(EvInitReport))
